@@ -58,9 +58,10 @@ var addrRe = regexp.MustCompile(`->(\d+\.\d+\.\d+\.\d+:\d+)`)
 var dialRe = regexp.MustCompile(`failed to dial (\S+),`)
 
 type logCap struct {
-	ev     *evLog
-	byAddr map[string]string // dial address -> link "s>r"
-	other  int64
+	ev          *evLog
+	byAddr      map[string]string // dial address -> link "s>r"
+	other       int64
+	onCommitErr func() // called (after the event was logged) for every commit-phase network error
 }
 
 func (c *logCap) Write(p []byte) (int, error) {
@@ -94,6 +95,9 @@ func (c *logCap) Write(p []byte) (int, error) {
 		e.Link = c.byAddr[m[1]]
 	}
 	c.ev.emit(e)
+	if cls == "commit-neterr" && c.onCommitErr != nil {
+		c.onCommitErr()
+	}
 	return len(p), nil
 }
 
@@ -107,6 +111,12 @@ type world struct {
 	recs     map[*distsys.MPCalContext]*procRec
 	quiesced atomic.Bool
 	chans    []chan tla.Value
+
+	// directed full-buffer scenario
+	release  chan struct{} // closed when the parked receivers may start reading
+	released atomic.Bool
+	sig      chan string // reasons to release: "cd" (enough commits completed) | "commit-neterr"
+	cdCount  atomic.Int32
 }
 
 // procRec is the per-context recorder; it is only touched by the goroutine running that context.
@@ -132,6 +142,7 @@ type procRec struct {
 	expected   int
 	idleAfterQ int
 	pausing    bool
+	parked     atomic.Bool
 	finished   bool
 	done       chan struct{}
 }
@@ -271,6 +282,12 @@ func receiverArch(p *procRec) distsys.MPCalArchetype {
 				}
 				if p.finished {
 					return iface.Goto("AReceiver.Done")
+				}
+				if p.w.c.Directed == "fullbuf" && p.att >= 1 && !p.w.released.Load() {
+					// directed scenario: the listener exists (first read done); now do not read until released
+					ev.emit(Ev{K: "parked", P: p.name})
+					p.parked.Store(true)
+					<-p.w.release
 				}
 				quiet := p.w.quiesced.Load()
 				if p.pausing && !quiet {
@@ -479,7 +496,16 @@ func childMain(args []string) {
 	}
 	ev := newEvLog(args[1])
 	w := &world{c: &c, ev: ev, recs: map[*distsys.MPCalContext]*procRec{}}
+	w.release, w.sig = make(chan struct{}), make(chan string, 4)
 	lc := &logCap{ev: ev, byAddr: map[string]string{}}
+	if c.Directed == "fullbuf" {
+		lc.onCommitErr = func() {
+			select {
+			case w.sig <- "commit-neterr":
+			default:
+			}
+		}
+	}
 	log.SetFlags(0)
 	log.SetOutput(lc)
 
@@ -500,6 +526,16 @@ func childMain(args []string) {
 			return
 		}
 		ev.emit(Ev{K: "cd", P: p.name, Sec: p.sec, Att: p.att})
+		if p.sender && c.Directed == "fullbuf" && p.sec < len(p.plan.Sections) {
+			// buffer size + 1 commits complete on a correct mailbox while nobody reads (the last one is accepted
+			// speculatively before the handler blocks on the full buffer)
+			if int(w.cdCount.Add(1)) == c.ChanSize+1 {
+				select {
+				case w.sig <- "cd":
+				default:
+				}
+			}
+		}
 		if p.sender {
 			p.sec++
 			p.att = 0
@@ -663,6 +699,29 @@ func childMain(args []string) {
 				os.Exit(4)
 			}
 		}
+	}
+	if c.Directed == "fullbuf" {
+		for _, p := range rrecs {
+			for try := 0; try < 20000 && !p.parked.Load(); try++ {
+				time.Sleep(time.Millisecond)
+			}
+			if !p.parked.Load() {
+				ev.emit(Ev{K: "setup-failed", P: "ctl", Txt: "receiver never parked"})
+				os.Exit(4)
+			}
+		}
+		go func() {
+			// release the receivers only after the decisive event was observed: either buffer+1 commits completed
+			// (H1 CommitDone) while nobody read, or the library logged a commit-phase network error
+			reason := "watchdog"
+			select {
+			case reason = <-w.sig:
+			case <-time.After(60 * time.Second):
+			}
+			ev.emit(Ev{K: "release", P: "ctl", Txt: reason, N: int(w.cdCount.Load())})
+			w.released.Store(true)
+			close(w.release)
+		}()
 	}
 	var wg sync.WaitGroup
 	for i, ctx := range sctx {
